@@ -86,6 +86,55 @@ def validB (hasComma : N → Bool) (arity : F → Nat) (names : List N)
   items.any Item.isX &&
   items.any Item.isInit
 
+/-! ## which defect is *present*? (C15: "errors name a defect actually present in the call sequence")
+
+Written on the grouped call sequence, independently of the builder's state machine: for every
+error value the condition under which the defect it names really occurs in the session. -/
+
+/-- defects of one function item that can be seen before the item is complete (monotone in the
+list of derivatives given so far) -/
+def fnDefectPre (hasComma : N → Bool) (arity : F → Nat) (names : List N) (g : FnItem N F) : BErr N → Bool
+  | .duplicateParameterNames l => decide (l = g.fps) && !allUnique l
+  | .emptyParameters => g.fps.isEmpty
+  | .functionParameterNotInModel p => g.fps.contains p && !names.contains p
+  | .invalidDerivative p fps =>
+    decide (fps = g.fps) && g.derivs.any (fun pd => decide (pd.1 = p)) && !(g.fps.contains p && names.contains p)
+  | .duplicateDerivative p => decide (2 ≤ (g.derivs.filter (fun pd => decide (pd.1 = p))).length)
+  | .incorrectParameterCount a e =>
+    decide (a ≠ e) && decide (g.fps.length = a) && (decide (arity g.f = e) || g.derivs.any (fun pd => decide (arity pd.2 = e)))
+  | .commaInParameterNameNotAllowed p => hasComma p && g.fps.contains p
+  | _ => false
+
+/-- the defect named by `e` is present in the function item `g` -/
+def fnDefectB (hasComma : N → Bool) (arity : F → Nat) (names : List N) (g : FnItem N F) (e : BErr N) : Bool :=
+  fnDefectPre hasComma arity names g e ||
+  match e with
+  | .missingDerivative p fps => decide (fps = g.fps) && g.fps.contains p && !g.derivs.any (fun pd => decide (pd.1 = p))
+  | _ => false
+
+/-- the defect named by `e` is present in the item -/
+def itemDefectB (hasComma : N → Bool) (arity : F → Nat) (names : List N) (e : BErr N) : Item N F G X K → Bool
+  | .fn g => fnDefectB hasComma arity names g e
+  | .stray _ => decide (e = .illegalCallToPartialDeriv)
+  | .init v => decide (e = .incorrectParameterCount v.length names.length) && decide (v.length ≠ names.length)
+  | _ => false
+
+/-- **"the error names a real defect"**: the defect named by `e` is present in the session
+`new(names); calls…; build()` -/
+def defectB (hasComma : N → Bool) (arity : F → Nat) (names : List N)
+    (calls : List (Call N F G X K)) (e : BErr N) : Bool :=
+  let items := group (none : Option (FnItem N F)) calls
+  items.any (itemDefectB hasComma arity names e) ||
+  match e with
+  | .duplicateParameterNames l => decide (l = names) && !allUnique l
+  | .emptyParameters => names.isEmpty
+  | .commaInParameterNameNotAllowed p => hasComma p && names.contains p
+  | .emptyModel => !items.any Item.isFnLike
+  | .unusedParameter p => names.contains p && !items.any (Item.uses p)
+  | .missingX => !items.any Item.isX
+  | .missingInitialParameters => !items.any Item.isInit
+  | _ => false
+
 /-! ## evaluation by name (C16/C17 specification) -/
 
 /-- value of the parameter *named* `n` -/
